@@ -68,6 +68,8 @@ def judge(case, R, tin, tout, f):
         if a != b:
             k = lexc.first_diff(a, b)
             cls = classify(a, b, k)
+            if re.search(rb"//[^\n]*[^\\\n](\\\\)+\r?\n", case.data):
+                cls = "even-backslashes"          # '// ... \\\\' + line break: spliced by the languages' rules, not by uncrustify's tokenizer (see C03)
             if cls == "directive-structure" and re.match(rb"^\s*\\\r?\n\s*#", case.data):
                 cls += "|leading-splice"          # the file starts with a line splice in front of a directive
             f.append(("tokens|%s" % cls, "the output does not lex to the input's tokens: at token %d input %s, output %s"
